@@ -47,12 +47,13 @@ structure CfgOk (c : Cfg) : Prop where
     rng.1 + rng.2 ≤ rng'.1 ∨ rng'.1 + rng'.2 ≤ rng.1
 
 /-- **The upper invariant**, with ghost parameters describing calls in progress:
-    * `H`: trees with hidden frames (taken offline and not restored);
+    * `H i`: the number of free frames of tree `i` that are hidden (taken offline and not
+      restored): they are in no counter on purpose;
     * `P i`: free frames of tree `i` that are currently in no counter (taken from a counter and
       not yet allocated, or freed and not yet added to a counter);
     * `R`: trees that are reserved while their reservation is being moved between slots.
     Between calls `P = 0` and `R = ∅` (`UpperInv0`). -/
-structure UpperInv (c : Cfg) (H : Nat → Prop) (P : Nat → Nat) (R : Nat → Prop) (m : Mem) : Prop where
+structure UpperInv (c : Cfg) (H : Nat → Nat) (P : Nat → Nat) (R : Nat → Prop) (m : Mem) : Prop where
   lower : LowerInv c m
   treesSize : m.trees.size = c.ntrees
   slotsSize : m.slots.size = c.nslots
@@ -70,14 +71,24 @@ structure UpperInv (c : Cfg) (H : Nat → Prop) (P : Nat → Nat) (R : Nat → P
   /-- a reserved tree is held by a slot (or in transit) -/
   resSlot : ∀ (i : Nat) (t : Tree), m.trees[i]? = some t → t.reserved = true →
     R i ∨ ∃ s : Nat, ∃ l : LTree, m.slots[s]? = some l ∧ l.present = true ∧ l.row / c.geom.treeRows = i
-  /-- the counters never promise more than is free; exactly what is free unless hidden -/
-  counterLe : ∀ (i : Nat) (t : Tree), m.trees[i]? = some t →
-    t.free + m.slotFree c.geom.treeRows i + P i ≤ m.freeInTree c.geom i
-  counterEq : ∀ (i : Nat) (t : Tree), m.trees[i]? = some t → ¬ H i →
-    t.free + m.slotFree c.geom.treeRows i + P i = m.freeInTree c.geom i
+  /-- **exact accounting**: tree counter + local reservations + frames in transit + hidden frames
+      are exactly the free frames of the tree -/
+  counter : ∀ (i : Nat) (t : Tree), m.trees[i]? = some t →
+    t.free + m.slotFree c.geom.treeRows i + P i + H i = m.freeInTree c.geom i
+
+/-- the counters never promise more than is free -/
+theorem UpperInv.counterLe {c : Cfg} {H : Nat → Nat} {P : Nat → Nat} {R : Nat → Prop} {m : Mem} (inv : UpperInv c H P R m)
+    (i : Nat) (t : Tree) (h : m.trees[i]? = some t) : t.free + m.slotFree c.geom.treeRows i + P i ≤ m.freeInTree c.geom i := by
+  have := inv.counter i t h; omega
+
+/-- … and exactly what is free when nothing of the tree is hidden -/
+theorem UpperInv.counterEq {c : Cfg} {H : Nat → Nat} {P : Nat → Nat} {R : Nat → Prop} {m : Mem} (inv : UpperInv c H P R m)
+    (i : Nat) (t : Tree) (h : m.trees[i]? = some t) (hn : H i = 0) :
+    t.free + m.slotFree c.geom.treeRows i + P i = m.freeInTree c.geom i := by
+  have := inv.counter i t h; omega
 
 /-- the invariant between calls -/
-abbrev UpperInv0 (c : Cfg) (H : Nat → Prop) (m : Mem) : Prop := UpperInv c H (fun _ => 0) (fun _ => False) m
+abbrev UpperInv0 (c : Cfg) (H : Nat → Nat) (m : Mem) : Prop := UpperInv c H (fun _ => 0) (fun _ => False) m
 
 /-! ### counting free frames of a tree -/
 
